@@ -22,7 +22,7 @@ import propkit
 import vlib
 
 MANIFEST = {
-  "text": "proof (on the model): for allocation skeletons whose guards are exact (`dropped iff old + rows > cap`) and whose sparse row metadata is stored before the non-zero guard, every dropped request sets an overflow bit, a run without overflow bit writes exactly the requested rows (as with ample capacity), all written row / non-zero / slot indices are below capacity for every capacity >= 0, and rows, counters and overflow bits do not depend on the schedule when nothing overflows. The skeleton of every allocating kernel (constraint.py row builders, write_contact, _add_geom_pair, _compact_dofs, _next_time probes) is re-extracted from the source on every run and the model, instantiated with it, is compared with the real step on capacity sweeps. Refutations (proved on explicit builder values and replayed on the real code): the connect/weld guard drops an exactly fitting block silently; a sparse builder that returns before storing efc_J_rowadr leaves njmax_nnz overflow unflagged.",
+  "text": "proof (on the model): for allocation skeletons whose guards are exact (`dropped iff old + rows > cap`) and whose sparse row metadata is stored before the non-zero guard, every dropped request sets an overflow bit, a run without overflow bit writes exactly the requested rows (as with ample capacity), all written row / non-zero / slot indices are below capacity for every capacity >= 0, and rows, counters and overflow bits do not depend on the schedule when nothing overflows. The skeleton of every allocating kernel (constraint.py row builders, write_contact, _add_geom_pair, _compact_dofs, _next_time probes) is re-extracted from the source on every run and the model, instantiated with it, is compared with the real step on capacity sweeps. Refutations (proved on explicit builder values and replayed on the real code): the connect/weld guard drops an exactly fitting block silently; a sparse builder that returns before storing efc_J_rowadr leaves njmax_nnz overflow unflagged; collision() returning early at naconmax == 0 loses all contacts without a flag. The real step runs in a subprocess: crashes / exceptions of the real code on a capacity setting are reported as findings.",
   "note": "trusted: Coq kernel; extractor bin/extract_alloc.py (fails closed on unknown shapes); the harness that turns an ample-capacity run into the request list; Warp CPU execution order (ascending tid). Not covered: efc_jtdaj_nblock list, CCD/hfield/flex-collision/contact-sensor buffers (flagged at the allocation site), flex builders are extracted and modelled but not exercised by the correspondence, atomics interleaved below task granularity.",
   "technique": "Rocq proof over a skeleton model + S extraction + model-vs-implementation correspondence + differential oracle (capacity sweeps against the ample run)",
   "engine": "coq",
@@ -617,10 +617,19 @@ def worker_main(jobpath):
 
 def run_workers(res):
   """Drive the worker; restart it after a crash of the real code. Returns (models, crashes, incomplete)."""
-  import subprocess
+  import shutil
   import tempfile
 
   tmp = tempfile.mkdtemp(prefix="c16_", dir=vlib.BUILD)
+  try:
+    return _run_workers(res, tmp)
+  finally:
+    shutil.rmtree(tmp, ignore_errors=True)
+
+
+def _run_workers(res, tmp):
+  import subprocess
+
   outp = os.path.join(tmp, "out.jsonl")
   open(outp, "w").close()
   nspec = len(model_specs(res.tier))
